@@ -29,7 +29,7 @@ RULE = ("one run = (certificate gathered by the real tools from a simulated devi
         "invalid key, compressed keys; certificate side: target removed; root: other key / broken "
         "self-signature / expired (SGX, virtual clock); non-trivial = the verify command ran; distinct = "
         "(platform, deviation, operator-side alteration, root state, outcome)")
-TIERS = {"quick": {"runs": 600, "wall": 170}, "thorough": {"runs": 40000, "wall": 2400}}
+TIERS = {"quick": {"runs": 8000, "wall": 240}, "thorough": {"runs": 150000, "wall": 3000}}
 MUTANT_RUNS = 1200
 MUTANT_WALL = 150
 COMPONENTS = {
